@@ -316,7 +316,11 @@ def r5_orphans_index(chk: Check):
     rd = ReachingDefs(g)
     # xpjobs built from both */jobs and */jobs.bak unless --ignore-old
     loops = [n for n in g.live if n.kind == "for" and src(n.ast.iter) == "paths" or n.kind == "for" and "jobs.bak" in rd.canon(n.ast.iter, n) and "chain" in rd.canon(n.ast.iter, n)]
-    adds = [n for n, c in g.call_nodes(lambda c: src(c.func) == "xpjobs.add")]
+    # the set of indexed job names, whatever it is called: the one filled with a value that is not a resolved path
+    name_sets = [src(c.func.value) for n, c in g.call_nodes(lambda c: tail(c) == "add" and isinstance(c.func, ast.Attribute) and c.args and not src(c.args[0]).endswith(".resolve()"))
+                 if isinstance(c.func.value, ast.Name)]
+    XPJOBS = name_sets[0] if len(set(name_sets)) == 1 else "xpjobs"
+    adds = [n for n, c in g.call_nodes(lambda c: src(c.func) == XPJOBS + ".add")]
     chk.require(len(adds) == 1, chk.fkey(f, "collects indexed jobs"), "orphans must collect the jobs referenced by the experiment indexes", loc)
     def patterns(e, at, ign, depth=6):
         """glob patterns feeding expression `e` evaluated at node `at` when --ignore-old is `ign`"""
@@ -381,7 +385,7 @@ def r5_orphans_index(chk: Check):
     for n, c in rm:
         guards = [(t, pol) for t, pol in g.guards(n) if t.kind == "test"]
         gs = sorted((src(t.ast), pol) for t, pol in guards)
-        member = [(t, pol) for t, pol in guards if isinstance(t.ast, ast.Compare) and isinstance(t.ast.ops[0], ast.In) and src(t.ast.comparators[0]) == "xpjobs"]
+        member = [(t, pol) for t, pol in guards if isinstance(t.ast, ast.Compare) and isinstance(t.ast.ops[0], ast.In) and src(t.ast.comparators[0]) == XPJOBS]
         lp = [a for a in _anc(c) if isinstance(a, ast.For)]
         # the listing of jobs/ : either the shared helper getjobs(jobspath) -> (relative key, directory), or the same thing written out
         listing = None
